@@ -148,7 +148,12 @@ func (c *Commands) UnmarshalBinary(uplink bool, data []byte) error {
 
 	for i < len(data) {
 		var cmd Command
-		if err := cmd.UnmarshalBinary(uplink, data[i:]); err != nil {
+		b := data[i:]
+		// a command without payload bytes occupies exactly one byte of the stream
+		if p, err := GetCommandPayload(uplink, CID(b[0])); err == nil && p.Size() == 0 {
+			b = b[:1]
+		}
+		if err := cmd.UnmarshalBinary(uplink, b); err != nil {
 			return err
 		}
 		i += cmd.Size()
@@ -472,7 +477,7 @@ func (p DevDeleteImageReqPayload) MarshalBinary() ([]byte, error) {
 
 // UnmarshalBinary decodes the payload from a slice of bytes.
 func (p *DevDeleteImageReqPayload) UnmarshalBinary(data []byte) error {
-	if len(data) != p.Size() {
+	if len(data) < p.Size() {
 		return fmt.Errorf("lorawan/applayer/firmwaremanagement: %d bytes are expected", p.Size())
 	}
 
